@@ -40,7 +40,7 @@ def warm():
 
 # ============================================================================= environments
 def draw_env(rng, tool, force_stdin=False):
-    ins = ["path", "fifo"] + (["dash", "default"] if tool in STDIN_OK else [])
+    ins = ["path", "fifo"] + (["dash", "default", "redir", "redir_off"] if tool in STDIN_OK else [])
     outs = ["path"] + (["dash", "default"] if tool in STDOUT_OK else [])
     for _ in range(50):
         if force_stdin and tool in STDIN_OK:
@@ -584,6 +584,14 @@ def real_cli(tool, opts, data, env, tmpdir):
         feeder = threading.Thread(target=feed, daemon=True)
         feeder.start()
         pos.append(inp if si.startswith("/") else si)
+    elif env.in_kind in ("redir", "redir_off"):
+        import random as _r0
+        k = 0 if env.in_kind == "redir" else 1 + env.in_seed % 97
+        with open(inp + ".redir", "wb") as f:
+            f.write(_r0.Random(env.in_seed).randbytes(k) + data)
+        stdin = open(inp + ".redir", "rb")
+        stdin.seek(k)
+        pos.append("-")
     else:
         stdin = data
         if env.in_kind == "dash":
@@ -605,8 +613,16 @@ def real_cli(tool, opts, data, env, tmpdir):
     envv.update(env_vars(env.envseed))
     pyopt = ["-" + "O" * env.opt] if env.opt else []
     try:
-        p = subprocess.run([PYTHON] + pyopt + ["-m", "coco." + tool] + argv, input=stdin if stdin is not None else b"",
-                           capture_output=True, env=envv, cwd=os.path.join(tmpdir, "cwd"), timeout=120)
+        if hasattr(stdin, "read"):
+            os.lseek(stdin.fileno(), stdin.tell(), 0)     # the child inherits the file offset
+            p = subprocess.run([PYTHON] + pyopt + ["-m", "coco." + tool] + argv, stdin=stdin,
+                               capture_output=True, env=envv, cwd=os.path.join(tmpdir, "cwd"), timeout=120)
+            stdin.close()
+            os.remove(inp + ".redir")
+        else:
+            p = subprocess.run([PYTHON] + pyopt + ["-m", "coco." + tool] + argv,
+                               input=stdin if stdin is not None else b"",
+                               capture_output=True, env=envv, cwd=os.path.join(tmpdir, "cwd"), timeout=120)
     except subprocess.TimeoutExpired:
         for q in (inp, outp):
             if os.path.exists(q):
